@@ -14,10 +14,11 @@ SEEDS = [  # (property, index, package dir of the demo)
 SEEDS += [tuple(x) for x in json.load(open('/verif/tools/more_seeds.json'))] if os.path.exists('/verif/tools/more_seeds.json') else []
 ALL = ["C01","C02","C03","C04","C05","C06","C08","C09","C10","C11","C12","C13","C14","C15","C16","C17","C18","C19","C20"]
 only = sys.argv[1:]
-for prop, i, pkg in SEEDS:
+for ent in SEEDS:
+    prop, i, pkg = ent[0], ent[1], ent[2]
     sid = f"{prop}-s{i}"
     if only and sid not in only: continue
-    src = f"/tmp/seed-{prop}/seeded{i}"
+    src = ent[3] if len(ent) > 3 else f"/tmp/seed-{prop}/seeded{i}"
     dst = f"/verif/seeded/{sid}"
     os.makedirs(dst, exist_ok=True)
     if os.path.exists(src):
@@ -29,20 +30,26 @@ for prop, i, pkg in SEEDS:
         print(sid, "PATCH DOES NOT APPLY", r.stderr[:200]); continue
     detected = {}
     try:
-        for q in ALL:
-            out = subprocess.run(["/verif/bin/pprofcheck","-property",q,"-no-evidence"], capture_output=True, text=True)
-            if out.returncode != 0:
-                rules = sorted(set(re.findall(r"(?:VIOLATION|UNDECIDED) (C\d\d-R\d+|core)", out.stdout)))
-                lines = [l.strip()[:300] for l in out.stdout.splitlines() if ("VIOLATION C" in l or "UNDECIDED" in l)]
-                detected[q] = {"rules": rules, "first_report": lines[0] if lines else out.stdout[:300]}
+        out = subprocess.run(["/verif/bin/pprofcheck","-property","all","-no-evidence"], capture_output=True, text=True)
+        for l in out.stdout.splitlines():
+            m = re.match(r"\s*(VIOLATION|UNDECIDED) ((C\d\d)-R\d+|core)", l)
+            if not m: continue
+            q = m.group(3) or "core"
+            d = detected.setdefault(q, {"rules": [], "first_report": l.strip()[:300]})
+            if m.group(2) not in d["rules"]: d["rules"].append(m.group(2))
+        for l in out.stdout.splitlines():
+            m = re.match(r"VIOLATION property=(C\d\d)", l)
+            if m and m.group(1) not in detected:
+                detected[m.group(1)] = {"rules": [], "first_report": l}
     finally:
         subprocess.run(["git","-C","/repo","checkout","--","."])
     notes = open(os.path.join(dst,"notes.md")).read() if os.path.exists(os.path.join(dst,"notes.md")) else ""
+    sn = json.load(open("/verif/tools/seed_notes.json")).get(sid, {})
     meta = {
-        "id": sid, "property": prop, "demo_package_dir": pkg,
+        "id": sid, "property": prop, "summary": sn.get("summary",""), "first_missed": sn.get("first_missed"), "demo_package_dir": pkg,
         "what_it_needs_to_manifest": "see notes.md (written by the sub-agent that produced the change)",
         "confirmed_by_me": {
-            "procedure": "tools/confirm_seed.sh %s %d %s in the scratch worktree /tmp/wt" % (prop, i, pkg),
+            "procedure": "tools/confirm_seed.sh (seed directory %s, demo copied into %s) in the scratch worktree /tmp/wt" % (src, pkg),
             "full_suite_with_patch": "all packages ok",
             "demo_with_patch": "FAIL",
             "demo_without_patch": "ok",
